@@ -75,9 +75,14 @@ def okb(case, io, mo):
         ev = v + a * d
         ep = p + v * d + a * d * d / 2
         scale = abs(p) + abs(v * d) + abs(a * d * d) + Fraction(1, 2**120)
-        if abs(got[1] - ev) > 8 * EPS * (abs(v) + abs(a * d) + Fraction(1, 2**120)):
+        # standard model of binary32 arithmetic: fl(x op y) = (x op y)(1 + delta) + eta with |delta| <= 2^-24 and, when the
+        # result is subnormal, |eta| <= 2^-150.  An underflow error in a*dt or v*dt is carried, multiplied by |dt|, into the
+        # later products, so the absolute slack is a few min-subnormals times (1 + |dt| + dt^2).  (Found by the thorough tier:
+        # p = 2^-149, a = 2^-149, dt = 57545 s gives a relative error of 5e-6 in p' although every operation is correctly rounded.)
+        eta = Fraction(1, 2**149)
+        if abs(got[1] - ev) > 8 * EPS * (abs(v) + abs(a * d) + Fraction(1, 2**120)) + 4 * eta * (1 + abs(d)):
             return False, "v' = %s, closed form %s" % (float(got[1]), float(ev))
-        if abs(got[0] - ep) > 16 * EPS * scale:
+        if abs(got[0] - ep) > 16 * EPS * scale + 8 * eta * (1 + abs(d) + d * d):
             return False, "p' = %s, closed form %s" % (float(got[0]), float(ep))
         return True, ""
     return True, ""
